@@ -60,7 +60,10 @@ fn build(ch: &mut Chooser, fmt: &str, s: &str) -> (Vec<u8>, String) {
             let mut c = xlsx::XCell::new(1, 1, val);
             if storage == 2 { c.formula = Some(xlsx::XFormula::Plain("\"x\"".into())); }
             book.sheets.push(xlsx::XSheet::new("S", vec![xlsx::XCell::new(0, 0, sent), c]));
-            let e = xlsx::XEnc { prefix: ch.flag("xlsx.prefix"), indent: ch.flag("xlsx.indented"), ..Default::default() };
+            // comments between elements and the optional neighbours of sheetData vary with the string (not as free choices: the
+            // storage forms already multiply) so that every third / every second string is written with them
+            let hs = crate::engine::hash_of(&s);
+            let e = xlsx::XEnc { prefix: ch.flag("xlsx.prefix"), indent: ch.flag("xlsx.indented"), comments: hs % 3 == 0, extras: hs % 2 == 1, ..Default::default() };
             (xlsx::write(&book, &e), format!("xlsx storage={storage} enc={enc:?} runs={shape} prefix={}", e.prefix))
         }
         "xlsb" => {
